@@ -26,7 +26,8 @@ def gen_history(rng, steps, ndisp, nthreads, flavour):
     out = []
     nextd = 1
     while len(out) < steps:
-        held = [d for d, h in handle.items() if h == "held"]
+        held = [d for d, h in handle.items() if h in ("held", "static")]
+        droppable = [d for d, h in handle.items() if h == "held"]       # a static collector is never dropped
         ops = ["emit"] * 8 + ["new"] * 2 + ["rebuild"]
         if held:
             ops += ["set_default"] * 3 + ["drop"] + ["set_global"] + ["flip"]
@@ -39,11 +40,14 @@ def gen_history(rng, steps, ndisp, nthreads, flavour):
         if op == "new":
             if nextd > ndisp:
                 continue
-            out.append({"ev": "new", "d": nextd, "f": rand_filter(rng, accept_all=(flavour == "scopes" and rng.random() < 0.7))})
-            handle[nextd] = "held"
+            st = flavour == "scopes" and rng.random() < 0.25
+            out.append({"ev": "new", "d": nextd, "f": rand_filter(rng, accept_all=(flavour == "scopes" and rng.random() < 0.7)), "static": st})
+            handle[nextd] = "static" if st else "held"
             nextd += 1
         elif op == "drop":
-            d = rng.choice(held)
+            if not droppable:
+                continue
+            d = rng.choice(droppable)
             handle[d] = "dropped"
             out.append({"ev": "drop", "d": d})
         elif op == "flip":
@@ -78,6 +82,53 @@ def gen_history(rng, steps, ndisp, nthreads, flavour):
         else:
             out.append({"ev": "emit", "t": t, "c": {"lvl": rng.randint(1, 5), "tgt": rng.choice(TGTS)},
                         "k": rng.choice(["event", "event", "span", "probe"])})
+    return out
+
+
+def gen_churn(rng, ndisp=8):
+    """collector turnover around already registered callsites: a verbose collector registers every callsite and goes away,
+    then collectors with low and high (exact) hints come and go while everything is emitted again and again - the global
+    maximum level goes down and up across cached interests"""
+    out, d, scopes = [], 0, {1: [], 2: []}
+
+    def emit_all(t, frac=1.0):
+        for lvl in range(1, 6):
+            for tgt in TGTS:
+                if rng.random() < frac:
+                    out.append({"ev": "emit", "t": t, "c": {"lvl": lvl, "tgt": tgt}, "k": rng.choice(["event", "event", "span"])})
+    d += 1
+    out.append({"ev": "new", "d": d, "f": {"thr": 5, "tgts": TGTS, "kind": rng.choice(["static", "lazy"]), "hint": rng.choice([9, 5])}})
+    out.append({"ev": "set_default", "t": 1, "d": d})
+    emit_all(1)
+    out.append({"ev": "unset", "t": 1})
+    out.append({"ev": "drop", "d": d})
+    live = []
+    while d < ndisp:
+        d += 1
+        thr = rng.choice([1, 2, 3, 3, 4, 5])
+        out.append({"ev": "new", "d": d, "f": {"thr": thr, "tgts": sorted(rng.sample(TGTS, rng.choice([2, 3]))), "kind": rng.choice(["static", "static", "dyn", "lazy"]),
+                                               "hint": rng.choice([thr, thr, 9])}})
+        t = rng.choice([1, 2])
+        if scopes[t]:
+            out.append({"ev": "unset", "t": t})
+            scopes[t].pop()
+        out.append({"ev": "set_default", "t": t, "d": d})
+        scopes[t].append(d)
+        live.append(d)
+        emit_all(t, 0.6)
+        if live and rng.random() < 0.6:
+            x = rng.choice(live)
+            live.remove(x)
+            out.append({"ev": "drop", "d": x})
+            for tt in (1, 2):
+                if scopes[tt] and scopes[tt][-1] == x:
+                    out.append({"ev": "unset", "t": tt})
+                    scopes[tt].pop()
+        if rng.random() < 0.3:
+            out.append({"ev": "rebuild"})
+        for tt in (1, 2):
+            if scopes[tt]:
+                emit_all(tt, 0.3)
     return out
 
 
